@@ -628,6 +628,99 @@ theorem stepI_is_impl (reg : Reg) (g : Grid) (sid : Int) (hv : validId reg sid =
     fun s e h1 h2 h3 => by rw [setRowStyle_ok reg g s e sid hv h1 h2 h3]; rfl,
     fun mn mx h => by rw [setColStyle_ok reg g mn mx sid hv h]; rfl⟩
 
+/-- a definition that `getStyleID` finds at `id`: the xf there is accepted by all six lookup predicates -/
+theorem getStyleID_matches {r : Reg} {s s' : Style} {id : Nat} (h : getStyleID r s = .ok (some id, s')) :
+    ∃ xf fontID, r.xfs[id]? = some xf ∧
+      xfMatches (numKey r s) fontID (getFillID r s) (getBorderID r s) s' xf = true := by
+  rw [getStyleID_eq] at h
+  cases hg : getFontID r s with
+  | error e => rw [hg] at h; simp at h
+  | ok p =>
+    obtain ⟨k, t⟩ := p
+    rw [hg] at h
+    simp only at h
+    injection h with h; injection h with h1 h2
+    subst h2
+    rw [List.findIdx?_eq_some_iff_getElem] at h1
+    obtain ⟨hi, hp, _⟩ := h1
+    exact ⟨r.xfs[id], k, List.getElem?_eq_getElem hi, hp⟩
+
+/-- **custom codes, style level** ("dedup only of equal definitions"): in every registry reachable
+from `NewFile()`, two definitions with custom number formats that are found at the SAME style id carry
+the same format code — `NewStyle` never hands the id of a style with one custom code to a request
+with another (case, spaces, quoting all matter) -/
+theorem custom_styles_same_id_same_code (ss : List Style) (s1 s2 s1' s2' : Style) (c1 c2 : Str) (id : Nat)
+    (hc1 : s1.customNumFmt = some c1) (hc2 : s2.customNumFmt = some c2)
+    (h1 : getStyleID (runNew initReg ss) s1 = .ok (some id, s1'))
+    (h2 : getStyleID (runNew initReg ss) s2 = .ok (some id, s2')) : c1 = c2 := by
+  obtain ⟨xf1, f1, hx1, m1⟩ := getStyleID_matches h1
+  obtain ⟨xf2, f2, hx2, m2⟩ := getStyleID_matches h2
+  rw [hx1] at hx2; injection hx2 with hx; subst hx
+  have key : ∀ (s s' : Style) (c : Str) (f : Option Nat), s.customNumFmt = some c →
+      xfMatches (numKey (runNew initReg ss) s) f (getFillID (runNew initReg ss) s) (getBorderID (runNew initReg ss) s) s' xf1 = true →
+      s'.customNumFmt = s.customNumFmt →
+      ∃ n, getCustomNumFmtID (runNew initReg ss) c = some n ∧ xf1.numFmtId = some n := by
+    intro s s' c f hc hm hsame
+    rw [xfMatches_and] at hm
+    simp only [Bool.and_eq_true] at hm
+    have hn := hm.1.1.1.1.1
+    unfold xfNumFmt numKey at hn
+    rw [hsame, hc] at hn
+    simp only [Option.isNone_some, Bool.false_eq_true, false_and, if_false] at hn
+    cases hg : getCustomNumFmtID (runNew initReg ss) c with
+    | none => rw [hg] at hn; simp at hn
+    | some n =>
+      rw [hg] at hn
+      have : ¬ ((n : Int) < 0) := by omega
+      simp only [this, if_false, Int.toNat_natCast, beq_iff_eq] at hn
+      exact ⟨n, rfl, hn⟩
+  have sh1 := (getStyleID_style (by
+    intro hh; have := (wf_reachable ss).fontsNe; rw [hh] at this; simp at this) h1).1
+  have sh2 := (getStyleID_style (by
+    intro hh; have := (wf_reachable ss).fontsNe; rw [hh] at this; simp at this) h2).1
+  obtain ⟨n1, g1, e1⟩ := key s1 s1' c1 f1 hc1 m1 sh1.custom
+  obtain ⟨n2, g2, e2⟩ := key s2 s2' c2 f2 hc2 m2 sh2.custom
+  rw [e1] at e2; injection e2 with e2; subst e2
+  exact custom_code_injective ss c1 c2 n1 g1 g2
+
+/-! ## `<cols>` with ranges (worksheets opened from files) -/
+
+/-- the rule the code implements on range entries: `prepareCellStyle` (hence `GetCellStyle`) takes
+the FIRST entry that covers the column and has a non-zero style, `GetColStyle` the LAST entry that
+covers it. On every column list without overlapping entries (what the file format allows) the two
+agree, for every column — flatness is not assumed -/
+theorem getcolstyle_agrees_on_ranges (g : Grid) (h : ColsDisjoint g.cols) (c : Nat) :
+    getColStyle g c = colS g c := cols_disjoint_agree g h c
+
+/-- … and therefore the column level `GetCellStyle` falls back to is what `GetColStyle` reports -/
+theorem getcellstyle_column_level (g : Grid) (h : ColsDisjoint g.cols) (c r : Nat) (hr : 1 ≤ r)
+    (hcell : cellS g c r = 0) (hrow : rowS g r = 0) : getCellStyle g c r = getColStyle g c := by
+  have e : getCellStyle g c r = Spec.resolve (levelsOf g) c r := prepareCellStyle_eq_resolve g c r hr
+  rw [e, resolve_levelsOf, hcell, hrow, cols_disjoint_agree g h c]; simp
+
+/-- on OVERLAPPING entries (not valid in a file; the transcript carries this witness) the two lookups
+follow different entries: column B of `<col min=1 max=3 style=5/><col min=2 max=2 style=7/>` reports
+5 through GetCellStyle and 7 through GetColStyle. Recorded as a limitation of invalid input, not as a
+finding -/
+theorem cols_overlap_disagree :
+    getCellStyle ⟨[], [⟨1, 3, 5⟩, ⟨2, 2, 7⟩]⟩ 2 1 = 5 ∧ getColStyle ⟨[], [⟨1, 3, 5⟩, ⟨2, 2, 7⟩]⟩ 2 = 7 := by
+  decide
+
+/-- every xf record in a registry reachable from `NewFile()` has the shape `setCellXfs` writes: all
+four component ids present, apply flags of font / fill / border never `false`, alignment and
+protection stored consistently with their flags (the invariant a read-back theorem for FOUND styles
+needs; that theorem itself is not proved) -/
+theorem xf_shape_history (ss : List Style) : ShapeOk (runNew initReg ss) := by
+  suffices H : ∀ r, WF r → ShapeOk r → ShapeOk (runNew r ss) from H _ wf_init shape_init
+  induction ss with
+  | nil => intro r _ h; exact h
+  | cons s t ih =>
+    intro r w h
+    simp only [runNew]
+    split
+    · rename_i r' _ _ hn; exact ih r' (newStyle_spec w hn).2.1 (newStyle_shape w h hn)
+    · exact ih r w h
+
 /-! ### non-vacuity and the positive cases -/
 
 /-- a plain definition is deduplicated and read back (bold font, solid fill, border, protection,
